@@ -147,6 +147,8 @@ pub struct PayInfo {
 	pub path_nodes: Vec<usize>,
 	pub path_chans: Vec<usize>,
 	pub amt_msat: u64,
+	/// absolute expiry height of the HTLC at the recipient
+	pub cltv_expiry: u32,
 	pub hash: PaymentHash,
 	pub preimage: PaymentPreimage,
 	pub secret: PaymentSecret,
@@ -769,6 +771,7 @@ impl Sim {
 			path_nodes: nodes,
 			path_chans: chans.to_vec(),
 			amt_msat,
+			cltv_expiry: self.chain.height() + 1 + TEST_FINAL_CLTV,
 			hash,
 			preimage,
 			secret,
